@@ -286,7 +286,12 @@ impl<'a> LfnBuffer<'a> {
         //
         // We cache the decoded chars into this array so we can iterate them
         // backwards. It's 60 bytes, but it'll have to do.
-        let mut char_vec: heapless::Vec<char, 13> = heapless::Vec::new();
+        //
+        // We need room for the 13 code units in this chunk, plus one more for
+        // the unpaired surrogate carried over from the previous call (which
+        // might still not have a partner, and so gets replaced rather than
+        // merged).
+        let mut char_vec: heapless::Vec<char, 14> = heapless::Vec::new();
         // Now do the decode, including the unpaired surrogate (if any) from
         // last time (maybe it has a pair now!)
         let mut is_first = true;
